@@ -17,6 +17,61 @@ func init() {
 	families["C20"] = runC20
 	ops["ConcRound"] = opConcRound
 	ops["LinRound"] = opConcRound
+	ops["AtomRound"] = opAtomRound
+}
+
+// opAtomRound: one goroutine inserts a long item (hashing takes microseconds) while another
+// keeps reloading fresh, empty, same-sized messages that alternate between two tweaks.  Every
+// message object is kept and inspected afterwards: in any sequential order of the calls the
+// insertion lands in exactly one message, with the bit numbers of THAT message's tweak.
+func opAtomRound(_ *HState, a Event) Event {
+	nbytes, nhash := gInt(a, "nbytes"), gInt(a, "nhash")
+	tweaks := []uint32{gW32(a, "t0"), gW32(a, "t1")}
+	item := gBytes(a, "item")
+	mk := func(i int) *wire.MsgFilterLoad {
+		return wire.NewMsgFilterLoad(make([]byte, nbytes), uint32(nhash), tweaks[i%2], wire.BloomUpdateNone)
+	}
+	msgs := []*wire.MsgFilterLoad{mk(0)}
+	f := bloom.LoadFilter(msgs[0])
+	var stop int32
+	var wg sync.WaitGroup
+	start := make(chan struct{})
+	wg.Add(2)
+	go func() {
+		defer wg.Done()
+		<-start
+		for i := 1; i < 20000 && atomic.LoadInt32(&stop) == 0; i++ {
+			m := mk(i)
+			msgs = append(msgs, m)
+			f.Reload(m)
+		}
+	}()
+	var pan bool
+	go func() {
+		defer wg.Done()
+		<-start
+		for i := 0; i < 50; i++ { // let the reloader get going
+			f.IsLoaded()
+		}
+		pan, _ = guard(func() { f.Add(item) })
+		atomic.StoreInt32(&stop, 1)
+	}()
+	close(start)
+	wg.Wait()
+	var touched []interface{}
+	for i, m := range msgs {
+		if b := setBits(m.Filter); len(b) > 0 {
+			touched = append(touched, map[string]interface{}{"t": i % 2, "bits": b})
+		}
+	}
+	if touched == nil {
+		touched = []interface{}{}
+	}
+	e := with(a, "nmsgs", len(msgs), "touched", touched)
+	if pan {
+		e["panic"] = "Add panicked"
+	}
+	return e
 }
 
 type concOp struct {
@@ -232,6 +287,17 @@ func runC20(c *Ctx) {
 			prog = append(prog, ops)
 		}
 		c.Call(Event{"op": "ConcRound", "nbytes": nbytes, "nhash": nhash, "tweak": w32(r.Uint32()), "flags": 0, "init": init, "prog": prog})
+	}
+	// atomicity of an insertion against concurrent reloads with another tweak
+	for round := 0; round < c.Pick(40, 400); round++ {
+		c.Call(Event{"op": "AtomRound", "nbytes": 8, "nhash": 3, "t0": w32(r.Uint32()), "t1": w32(r.Uint32()),
+			"item": ints(randBytes(r, 1024+r.Intn(3072)))})
+	}
+	// immutable GCS filters queried from many goroutines: same answers as sequentially, bytes untouched
+	for round := 0; round < c.Pick(6, 40); round++ {
+		items := gcsItems(c, 2000+r.Intn(3000), 0x21)
+		q := append(gcsItems(c, 10, 0x99), items[3], items[len(items)-1])
+		c.Call(Event{"op": "GcsConc", "items": bytesList(items), "q": bytesList(q), "k": []int{2, 8, 16, 32}[round%4]})
 	}
 	c.Flush()
 	// (i) small rounds with reload / unload: TLC searches for a linearization
